@@ -30,6 +30,12 @@ def run(run_, pkg, tier):
             key = "C12-T1/chi2-of-assembly/%s" % scn.name
             if run_.wants(key):
                 tasks.append((key, "C12-T1-chi2-is-graph-chi2", assembly_obligation(scn, chi2_only=True), "%s:%d" % (gfn._gs_module, gfn.lineno)))
+    from .c03 import own_chi2_obligation
+    efn = pkg.method("BaseEdge", "calc_chi2_gradient_hessian")
+    for dims in ((2,), (2, 3)):
+        key = "C12-T1/edge-chi2-is-its-calc_chi2/dims=%s" % "x".join(map(str, dims))
+        if run_.wants(key):
+            tasks.append((key, "C12-T1-chi2-is-graph-chi2", own_chi2_obligation(dims), "%s:%d" % (efn._gs_module, efn.lineno)))
     record(run_, tasks, run_tasks(pkg, tasks))
     oa = optim_rules.analyse(pkg)
     n = optim_rules.optimize_verdicts(run_, pkg, "C12", lambda f: (f.key, f.rule) if f.rule.startswith("C12-") else None)
